@@ -297,6 +297,7 @@ func init() {
 			items = append(items, Item{Name: "required-issues-under-one-path", MaxDevs: -1, Run: c04RefiledScenario})
 			// what is absent behind a Preprocess is decided by the Parse rule on the function's output
 			items = append(items, preprocItem("C04", "clean-despite-violation", "issues", "destination", "panic"))
+			items = append(items, preprocPtrItem("C04", "clean-despite-violation", "issues", "destination", "panic"))
 			// Required / NotNil / Default applied to a node after it was handed to its parent's constructor
 			items = append(items, lateConfigItems(tier, c04Scenario, nil)...)
 			// the same table through every front end, on the record with optional parts behind pointers:
